@@ -21,7 +21,7 @@ RULE = ("invalid: (base configuration x one violated constraint) full product; v
         "options, each executed as a complete real run under a fixed tape; a state = one configuration; non-trivial = configuration that differs "
         "from the defaults in >=2 options; distinct by option tuple.")
 ASSUMPTIONS = ["only the constraints enumerated in the property are treated as invalid (e.g. cluster_every=0 is outside the list)",
-               "valid rows are run at n_dim=2, n_particles=24, n_total=96 under one deterministic tape per VERIF_SEED"]
+               "valid rows are run at n_dim=2 on three targets (unimodal, two equal modes, two modes of unequal height) with n_particles in {16,24,48}, n_total=4*n_particles, under two deterministic tapes per VERIF_SEED"]
 
 
 class Counter:
@@ -123,12 +123,16 @@ FACTORS = [
     ("boundary", ["none", "per0", "ref1", "per0ref1"]),
     ("save_every", [None, 1, 3]),
     ("output_label", [None, "x"]),
+    ("target", ["gauss", "bimodal", "unequal"]),
+    ("n_particles", [24, 16, 48]),
+    ("ess_ratio", [2.0, 1.0, 4.0]),
 ]
 DEFAULTS = {name: vals[0] for name, vals in FACTORS}
 
 
 def cfg_of(row):
-    c = {k: row[k] for k in ("sample", "resample", "cluster_every", "n_max_clusters", "split_threshold", "vv", "n_steps", "n_max_steps", "boundary")}
+    c = {k: row[k] for k in ("sample", "resample", "cluster_every", "n_max_clusters", "split_threshold", "vv", "n_steps", "n_max_steps", "boundary", "target", "n_particles", "ess_ratio")}
+    c["n_total"] = 4 * row["n_particles"]
     clu = row["clu"]
     c["clustering"] = clu != "off"
     c["normalize"] = clu != "on-nonorm"
@@ -235,6 +239,6 @@ def plan(ctx):
     ctx.bounds.update({"valid_rows": len(rows), "covering_strength": strength, "tuples_covered": f"{cov}/{tot}", "factors": {k: [repr(x) for x in v] for k, v in FACTORS}})
     if cov != tot:
         ctx.cap(f"covering array covers {cov}/{tot}")
-    cases = [{"kind": "valid", "row": r, "base": ctx.seed} for r in rows]
+    cases = [{"kind": "valid", "row": r, "base": ctx.seed + 100 * b} for r in rows for b in range(2)]
     agg = ctx.explore("valid-covering-array", cases)
     ctx.res.sample({"valid_row": rows[0]})
